@@ -495,6 +495,16 @@ def deliver (_t : Transport) (f : Frame) (tag : Nat) (redelivered : Bool) : Msg 
     messageId := f.props.messageId, timestamp := f.props.timestamp, type := f.props.type,
     userId := f.props.userId, appId := f.props.appId, clusterId := f.props.clusterId, tag := tag }
 
+/-- the request `TaskDispatcher.execute_task` builds for an rpcmessage function (task_dispatcher.py, "Actually
+invoke the Task"): subject = the function's name, reply-to = this instance's reply queue, correlation id =
+the id of the Task state's event (with the resource suffix, if any), expiration = the state's timeout in ms -/
+def rpcRequest (qt : QType) (iid fn corr payload : Str) (carrier : Dict) (timeoutMs : Int) : Msg :=
+  Msg.setSubject
+    { body := payload, properties := carrier, contentType := .str ['a', 'p', 'p', 'l', 'i', 'c', 'a', 't', 'i', 'o', 'n', '/', 'j', 's', 'o', 'n'],
+      correlationId := .str corr, replyTo := .str (replyName qt iid), expiration := .int timeoutMs,
+      mandatory := true }
+    (.str fn)
+
 /-- the default exchange routes to the queue named by the routing key, if it exists -/
 def routeDefault (queues : List Str) (routingKey : Json) : List Str :=
   match routingKey with
